@@ -443,9 +443,18 @@ func drvExecHistory(hist deriveHistory, s *Stream, emit bool) *deriveFailure {
 				as := drvBuildAttrs(c.Attrs)
 				n.h = p.h.WithAttrs(as)
 				if p.lg != nil {
-					args := make([]any, len(as))
-					for i, a := range as {
-						args[i] = a
+					var args []any
+					if idx%2 == 0 {
+						for _, a := range as { // the "key, value" spelling of the same attributes
+							args = append(args, a.Key, a.Value)
+						}
+					} else {
+						for _, a := range as {
+							args = append(args, a)
+						}
+					}
+					if idx%3 == 0 {
+						_ = p.lg.With(args...) // an earlier derivation from the very same argument slice
 					}
 					n.lg = p.lg.With(args...)
 				}
